@@ -47,8 +47,10 @@ class DynamicSGEDecider(SynthesisDecider):
         self.validate()
 
     def read(self, ty):
-        v = self.genotype.get(ty, self.positions[ty])
-        self.positions[ty] += 1
+        # keys that are not grammar symbols (a Union field, the Genotype infrastructure key) start at position 0 too
+        position = self.positions.get(ty, 0)
+        v = self.genotype.get(ty, position)
+        self.positions[ty] = position + 1
         return v
 
     def random_int(self, min_int=-sys.maxsize, max_int=sys.maxsize) -> int:
